@@ -3,6 +3,14 @@
 #define HFSM2_ENABLE_SERIALIZATION
 #define HFSM2_ENABLE_TRANSITION_HISTORY
 #define HFSM2_ENABLE_UTILITY_THEORY
+#ifdef VM_LOGGER
+#if VM_LOGGER == 2
+#define HFSM2_ENABLE_LOG_INTERFACE
+#else
+#define HFSM2_ENABLE_VERBOSE_DEBUG_LOG
+#endif
+#define HFSM2_ENABLE_STRUCTURE_REPORT
+#endif
 #include "common/verif.hpp"
 using namespace hfsm2; using namespace hfsm2::detail;
 struct Rng { float next() { float f = nd_f32(); VASSUME(f >= 0.0f && f < 1.0f); return f; } };
